@@ -22,6 +22,8 @@ DECIDED_R6 = ('Round 6: early-stop bound; unknown length reads limit + 1; empty 
 DECIDED = DECIDED + ' ' + DECIDED_R6
 DECIDED_R7 = ('Round 7: the parsed views (json, POST) are produced whatever the framing; chunked is recognised as one white-space-stripped item of the Transfer-Encoding list.')
 DECIDED = DECIDED + ' ' + DECIDED_R7
+DECIDED_R8 = ('Round 8: premises C04.d / C04.e (the body is read whatever the verb, to the end of the framing); both configuration entry points hand the request the merged configuration.')
+DECIDED = DECIDED + ' ' + DECIDED_R8
 NOT_DECIDED = ('which spellings of the size line int(x, 16) accepts (sign, underscores, 0x prefix): value semantics of the '
                'conversion; equality of decoded payload with the sent payload beyond the loop-invariant premises above.')
 ASSUMPTIONS = ['wsgi.input.read(n) returns at most n bytes (PEP 3333)', 'int(b, 16) raises ValueError on non-hex text']
@@ -232,6 +234,15 @@ def check(P, R):
                 if not cmp_ok:
                     R.ob('C05.b', f, c, False, detail=f'result `{var}` of the read is never tested for emptiness',
                          why='a truncated encoding would be scanned for ever or accepted')
+            if tests:
+                # ... and the test stands in front of the next read on every path: a byte that is not looked at for emptiness lets the scan go round for ever
+                tnodes = [tn for (tn, lab) in tests]
+                nxt_reads = [n for r2 in reads for n in g.node_of_stmt(r2)]
+                skipped = [m for (s_, lab_) in cn.succ if lab_ != 'exc' for m in nxt_reads if m in g.reachable_from([s_], avoid_nodes=tnodes)]
+                R.ob('C05.b', f, c, not skipped, text=f'`{short(c)}`: the emptiness test of `{var}` stands before the next read on every path', detail='' if not skipped else
+                     f'after `{short(c)}` the next read (`{short(skipped[0].ast)}`) can be reached without `{var}` having been tested for emptiness: at the end of a truncated '
+                     f'stream read() keeps returning b\'\' and the scan never ends - the request is neither accepted nor refused',
+                     why='an encoding cut short anywhere is rejected as a client error', key_extra=f'eof-before-next-read:{var}')
             for (tn, lab) in tests:
                 succ = T.succ_by_label(tn, lab)
                 reach = g.reachable_from(succ)
